@@ -32,13 +32,22 @@ def ceilDivFloat (a b : Int) : PyM Int := if b = 0 then .error zeroDiv else .ok 
 /-- `a ** b` on ints with an int result (negative exponents give a float in Python: unsupported). -/
 def pow (a b : Int) : PyM Int := if b < 0 then .error (.Other "FloatResult") else .ok (a ^ b.toNat)
 
-/-- `a & b` on ints; Python's two's-complement reading of a negative operand is outside the subset. -/
-def bitAnd (a b : Int) : PyM Int :=
-  if a < 0 ∨ b < 0 then .error (.Other "NegativeOutsideSubset") else .ok ((a.toNat &&& b.toNat : Nat) : Int)
+/-- `a & b` on ints, Python's infinite two's-complement reading of negative operands (`-(n+1)` is `~n`):
+    `m & ~n = m - (m & n)`, `~m & ~n = ~(m | n)`. -/
+def bitAnd (a b : Int) : Int :=
+  match a, b with
+  | .ofNat m, .ofNat n => ((m &&& n : Nat) : Int)
+  | .ofNat m, .negSucc n => ((m - (m &&& n) : Nat) : Int)
+  | .negSucc m, .ofNat n => ((n - (n &&& m) : Nat) : Int)
+  | .negSucc m, .negSucc n => .negSucc (m ||| n)
 
-/-- `a | b` on ints (non-negative operands, as for `bitAnd`). -/
-def bitOr (a b : Int) : PyM Int :=
-  if a < 0 ∨ b < 0 then .error (.Other "NegativeOutsideSubset") else .ok ((a.toNat ||| b.toNat : Nat) : Int)
+/-- `a | b` on ints (two's complement as for `bitAnd`): `m | ~n = ~(n & ~m)`, `~m | ~n = ~(m & n)`. -/
+def bitOr (a b : Int) : Int :=
+  match a, b with
+  | .ofNat m, .ofNat n => ((m ||| n : Nat) : Int)
+  | .ofNat m, .negSucc n => .negSucc (n - (n &&& m))
+  | .negSucc m, .ofNat n => .negSucc (m - (m &&& n))
+  | .negSucc m, .negSucc n => .negSucc (m &&& n)
 
 /-- `a << b`: `a * 2**b`; a negative count raises ValueError. -/
 def shl (a b : Int) : PyM Int := if b < 0 then .error .ValueError else .ok (a * 2 ^ b.toNat)
@@ -52,6 +61,9 @@ def range3 (a b c : Int) : PyM (List Int) :=
   else
     let n : Int := if c > 0 then Int.fdiv (b - a + c - 1) c else Int.fdiv (a - b + (-c) - 1) (-c)
     .ok ((List.range n.toNat).map (fun (k : Nat) => a + (k : Int) * c))
+
+/-- storing `x` in a protobuf `uint32` field (`Msg(field=x)`): ValueError outside `0 .. 2^32 - 1`; stands for `x`. -/
+def uint32Field (x : Int) : PyM Int := if x < 0 ∨ x ≥ 2 ^ 32 then .error .ValueError else .ok x
 
 /-- `buf[i]` on a `bytes` / `bytearray`: an int in `range(256)` -/
 def byteAt (buf : Bytes) (i : Int) : PyM Int := (pyIndex buf i).map (fun x => (x.toNat : Int))
